@@ -71,7 +71,7 @@ let run (args : (string * string) list) : string =
                fl_maxref = (match p.max_ref with None -> n_usize_max | Some m -> m); fl_minlen = p.min_len } in
      let st0 = { s_nodes = n_of_int nn; s_arcs = n_of_int (get_int args "arcs"); s_bits = n_of_int glen } in
      (match to_props le st0 f with
-      | Some mt -> add "props" (ok (string_of_coq mt = itext'))
+      | Some mt -> add "props" (ok (props_canon float_keys (string_of_coq mt) = props_canon float_keys itext'))
       | None -> add "props" "FAIL(model-refuses)");
      (match parse_properties le (coq_of_string itext) with
       | Some ((pn, pa), pf) -> add "propsback" (ok (pn = st0.s_nodes && pa = st0.s_arcs && pf = f))
